@@ -6,7 +6,8 @@ ROOT = os.path.dirname(os.path.dirname(os.path.abspath(__file__)))
 pref = sys.argv[1:]
 for d in sorted(glob.glob(os.path.join(ROOT, "seeded", "*"))):
     sid = os.path.basename(d)
-    if pref and not any(sid.startswith(p) for p in pref): continue
+    if pref and not any(sid.startswith(p) or (p.startswith('~') and p[1:] in sid) for p in pref): continue
+    if os.environ.get('ONLY') and os.environ['ONLY'] not in sid: continue
     mp = os.path.join(d, "meta.json"); m = json.load(open(mp))
     prop = m["breaks_property"]
     p = subprocess.run([os.path.join(ROOT, "tools", "run_seeded.sh"), prop, os.path.join(d, "patch.diff"), "quick"], capture_output=True, text=True)
